@@ -119,6 +119,15 @@ def dupLoop (out : Bytes) (start : Nat) : Nat → Bytes
   | 0 => out
   | n+1 => dupLoop (out.push (out[start]?.getD 0)) (start+1) n
 
+/-- `take_imp`: exactly `n` bytes, or `UnexpectedEnd` (linear in `n`, not in the remaining input) -/
+def takeN : Nat → List UInt8 → Option (List UInt8 × List UInt8)
+  | 0, bs => some ([], bs)
+  | _+1, [] => none
+  | n+1, b :: bs =>
+    match takeN n bs with
+    | some (a, r) => some (b :: a, r)
+    | none => none
+
 def litLen (tok : UInt8) (r : List UInt8) : Except Err (Nat × List UInt8) :=
   if tok.toNat / 16 = 15 then readInteger r 15 else .ok (tok.toNat / 16, r)
 
@@ -132,17 +141,19 @@ def decLoop : Nat → List UInt8 → Bytes → Except Err Bytes
     match litLen tok r with
     | .error e => .error e
     | .ok (lit, r1) =>
-      if r1.length < lit then .error .unexpectedEnd else
-      let out1 := out ++ (r1.take lit).toArray
-      match r1.drop lit with
-      | [] => .ok out1
-      | [_] => .error .unexpectedEnd
-      | o0 :: o1 :: r3 =>
-        match matchLen tok r3 with
-        | .error e => .error e
-        | .ok (ml, r4) =>
-          if o0.toNat + 256 * o1.toNat = 0 ∨ o0.toNat + 256 * o1.toNat > out1.size then .error .invalidOffset
-          else decLoop f r4 (dupLoop out1 (out1.size - (o0.toNat + 256 * o1.toNat)) ml)
+      match takeN lit r1 with
+      | none => .error .unexpectedEnd
+      | some (lits, r2) =>
+        let out1 := out ++ lits.toArray
+        match r2 with
+        | [] => .ok out1
+        | [_] => .error .unexpectedEnd
+        | o0 :: o1 :: r3 =>
+          match matchLen tok r3 with
+          | .error e => .error e
+          | .ok (ml, r4) =>
+            if o0.toNat + 256 * o1.toNat = 0 ∨ o0.toNat + 256 * o1.toNat > out1.size then .error .invalidOffset
+            else decLoop f r4 (dupLoop out1 (out1.size - (o0.toNat + 256 * o1.toNat)) ml)
 
 @[irreducible] def decompress (c : List UInt8) : Except Err Bytes := decLoop (c.length + 1) c #[]
 
